@@ -502,3 +502,9 @@ B('d6_b_generated_xml_attribute_unquoted', ['C09'], 'R09.c', (E, _AFTER_DEFAULT_
 B('d6_b_allowed_methods_detail_on_the_class', ['C09'], 'R09.a', (E, _MNA_DETAIL, _MNA_DETAIL.replace("            self.detail = ", "            type(self).detail = ")))
 B('d6_b_given_code_stored_on_the_class', ['C09'], 'R09.a', (E, _INIT_CODE, "        self.code = self.__class__.code = kwargs.pop('code', self.code)\n"))
 B('d6_b_message_default_patched_on_the_class', ['C09'], 'R09.a', (E, _INIT_MESSAGE, _INIT_MESSAGE + "        HTTPException.message = self.message\n"))
+B('d6_b_xml_closing_tag_typo', ['C09'], 'R09.c', (E, "               '<detail>{detail}</detail>'\n", "               '<detail>{detail}<detail>'\n"))
+B('d6_b_xml_root_not_closed', ['C09'], 'R09.c', (E, "               '</http_error>').format(**params)\n", "               '<http_error>').format(**params)\n"))
+B('d6_b_xml_module_template_two_roots', ['C09'], 'R09.c', (E, _AFTER_DEFAULT_MIME, _AFTER_DEFAULT_MIME + _XML_CONST.replace("              '</http_error>')\n", "              '</http_error><debug/>')\n")),
+  (E, _XML_BODY, "        return _XML_SHAPE.format(**self.to_escaped_dict())\n"))
+B('d6_b_xml_generated_elements_unclosed', ['C09'], 'R09.c', (E, _AFTER_DEFAULT_MIME, _AFTER_DEFAULT_MIME + _XML_FIELDS_CONST),
+  (E, _XML_BODY, _XML_GENERATED.replace("'<{0}>{{{0}}}</{0}>'.format(name)", "'<{0}>{{{0}}}<{0}/>'.format(name)")))
